@@ -32,7 +32,7 @@ structure Sem (s : Schema) (env : RequestEnv) (w : World) : Prop where
 
 /-- binary operators of the fragment -/
 def binOpOK : BinaryOp → Bool
-  | .eq | .less | .lessEq | .add | .sub | .mul | .contains | .containsAll | .containsAny => true
+  | .eq | .less | .lessEq | .add | .sub | .mul | .contains | .containsAll | .containsAny | .hasTag | .getTag => true
   | _ => false
 
 -- THE SECOND PROVED FRAGMENT (strict mode): see Thm/C03.lean.  `if` has arbitrary branches; record literals have distinct keys
